@@ -28,7 +28,7 @@ class AsyncWorld:
     props = ('C10',)
     levels = {'C10': 'exploration'}
     chunk = 1500
-    budget = {'quick': dict(runs=150000, wall=45.0), 'thorough': dict(runs=6000000, wall=900.0)}
+    budget = {'quick': dict(runs=150000, wall=180.0), 'thorough': dict(runs=6000000, wall=900.0)}
     time_unit = 'virtual seconds on the simulated asyncio clock'
     state_measure = ('distinct (pending-task count, latest-assignment kinds per parameter, queue depth) tuples '
                      'observed after each scheduler step')
